@@ -10,6 +10,13 @@ import (
 
 func TestReplay(t *testing.T) {
 	ev.RunReplays(func(raw json.RawMessage, f ev.Failure) error {
+		var kind struct {
+			Kind string `json:"kind"`
+		}
+		_ = json.Unmarshal(raw, &kind)
+		if f.Campaign == bbCampaign || kind.Kind == "bb" {
+			return bbReplay(raw) // black-box case: real server
+		}
 		var cd caseDesc
 		if err := json.Unmarshal(raw, &cd); err != nil {
 			return ev.InconclusiveError("cannot decode case: " + err.Error())
